@@ -4,9 +4,12 @@
 //
 // Case line:
 //
-//	(case n (kind K) (nt 0|1) (cleanup 0|1) (ws 0|1) (timeout ms) (text a... 256 b...) (obs ...))
+//	(case n (kind K) (nt 0|1) [(shape S)] (cleanup 0|1) (ws 0|1) (timeout ms) (text a... 256 b...) (obs ...))
 //
 // The two blobs share one field (separator 256) so that the generic shrinker of lib/check.py can cut both.
+// timeout: > 0 = FileDiff.Timeout option in milliseconds; 0 = option not given; -1 = option given as 0 and
+// -2 = option given as -1 (both take the "invalid timeout value" warning and mean "no deadline").
+// shape (streams of large cases only): how the pair was built (sizes, positions, id distances); informative.
 package c11core
 
 import (
@@ -30,6 +33,7 @@ var (
 
 type input struct {
 	kind    string
+	shape   string
 	a, b    []byte
 	cleanup bool
 	ws      bool
@@ -136,6 +140,8 @@ func run(in input) (obs []Sx) {
 	}
 	if in.timeout > 0 {
 		facts[api.ConfigFileDiffTimeout] = in.timeout
+	} else if in.timeout < 0 {
+		facts[api.ConfigFileDiffTimeout] = in.timeout + 1
 	}
 	fd.Configure(facts)
 	ba, bb := blob(h1, in.a), blob(h2, in.b)
@@ -166,6 +172,19 @@ func run(in input) (obs []Sx) {
 	}
 	obs = append(obs, T("diffs", runs...), T("old", I(data.OldLinesOfCode)), T("new", I(data.NewLinesOfCode)),
 		T("cla", countLines(ba)), T("clb", countLines(bb)))
+	// the text of every run IS the sequence of line identifiers FileDiff.Consume handed to DiffMainRunes, i.e. the
+	// identifiers after the shift out of the surrogate range (the engine only cuts and regroups its input; a
+	// surrogate would come back as U+FFFD): the only place where the shifted identifiers can be observed
+	rt := make([]Sx, len(data.Diffs))
+	for i, d := range data.Diffs {
+		rs := []rune(d.Text)
+		ids := make([]int, len(rs))
+		for j, r := range rs {
+			ids[j] = int(r)
+		}
+		rt[i] = T(opName(d.Type), Ints(ids))
+	}
+	obs = append(obs, T("rt", rt...))
 	sa, sb := api.StripWhitespace(string(in.a), in.ws), api.StripWhitespace(string(in.b), in.ws)
 	if in.ws {
 		obs = append(obs, T("sa", Bytes([]byte(sa))), T("sb", Bytes([]byte(sb))))
@@ -241,7 +260,8 @@ func emit(c *Config, in input) {
 		// the repaired finding F9)
 		kind = "wslastblank"
 	}
-	if distinctLines(api.StripWhitespace(string(in.a), in.ws), api.StripWhitespace(string(in.b), in.ws)) > 55295 {
+	if !strings.HasPrefix(kind, "ids-") && !strings.HasPrefix(kind, "scale-") &&
+		distinctLines(api.StripWhitespace(string(in.a), in.ws), api.StripWhitespace(string(in.b), in.ws)) > 55295 {
 		// kind of its own: the line ids of DiffLinesToRunes reach the UTF-16 surrogate range 0xD800..0xDFFF (the
 		// class of the repaired finding F15)
 		kind = "surrogate"
@@ -257,14 +277,22 @@ func emit(c *Config, in input) {
 		text = append(text, I(int(x)))
 	}
 	nt := len(in.a) > 0 && len(in.b) > 0 && string(in.a) != string(in.b)
-	c.Emit(T("kind", A(kind)), T("nt", B(nt)), T("cleanup", B(in.cleanup)), T("ws", B(in.ws)), T("timeout", I(in.timeout)),
+	fields := []Sx{T("kind", A(kind)), T("nt", B(nt))}
+	if in.shape != "" {
+		fields = append(fields, T("shape", A(in.shape)))
+	}
+	fields = append(fields, T("cleanup", B(in.cleanup)), T("ws", B(in.ws)), T("timeout", I(in.timeout)),
 		Sx{List: text, IsL: true}, T("obs", obs...))
+	c.Emit(fields...)
 }
 
 func parseCase(cs Sx) input {
 	in := input{kind: "replay", cleanup: true}
 	if f, ok := cs.Field("kind"); ok && len(f.Args()) == 1 {
 		in.kind = f.Args()[0].Atom
+	}
+	if f, ok := cs.Field("shape"); ok && len(f.Args()) == 1 {
+		in.shape = f.Args()[0].Atom
 	}
 	if f, ok := cs.Field("cleanup"); ok {
 		in.cleanup = f.Args()[0].Int() != 0
@@ -294,8 +322,9 @@ func parseCase(cs Sx) input {
 	return in
 }
 
-// Main is the body of both binaries: cmd/c11 (small and medium cases, shrinkable) and cmd/c11big (blobs with
-// more than 55 295 distinct lines; a stream of its own because shrinking megabyte inputs is pointless).
+// Main is the body of both binaries: cmd/c11 (small and medium cases, shrinkable) and cmd/c11big (large cases:
+// the id-space family with more than 55 295 distinct lines and the scale family; a stream of its own because
+// shrinking megabyte inputs is pointless).
 func Main(big bool) {
 	c := Setup()
 	defer c.Close()
